@@ -59,7 +59,15 @@ class LayeredRayTracing2D(_AbstractDistribution):
         self.distances = (self.receiver_depths**2 + self.shot_offset[0] ** 2) ** 0.5
 
         if tolerance is None:
-            self.tolerance = 0.1 * _numpy.mean(_numpy.diff(self.receiver_depths))
+            # A tenth of the mean receiver spacing, in whatever order the receivers are
+            # listed (deepest first would give a negative tolerance); a single receiver
+            # has no spacing
+            if self.receiver_depths.size > 1:
+                self.tolerance = 0.1 * _numpy.mean(
+                    _numpy.abs(_numpy.diff(_numpy.sort(self.receiver_depths)))
+                )
+            else:
+                self.tolerance = 1e-3 * float(self.distances[0])
         else:
             self.tolerance = tolerance
 
